@@ -1,8 +1,160 @@
 import SLModel.Drv.Util
+import SLModel.Core.Idb
 open Lean
 namespace SL.Drv.C27
+open SL.Drv SL.Idb
 
-/-- stub: no model operations for C27 yet -/
-def handle (_req : Json) : Except String Json := .error "C27: not implemented"
+def hexData (s : String) : Except String Data := do
+  let b ← hexToBytes s
+  return b.map (·.toNat)
+
+def dataHex (d : Data) : String := bytesToHex (d.map (·.toUInt8))
+
+def parseItem (j : Json) : Except String SysLabel := do
+  let op ← getStr j "op"
+  match op with
+  | "write_all" | "atomic_write" => return .fs (.writeAll (← getNat j "p") (← hexData (← getStr j "d")))
+  | "open_write" => return .fs (.openWrite (← getNat j "h") (← getNat j "p"))
+  | "open_append" => return .fs (.openAppend (← getNat j "h") (← getNat j "p"))
+  | "write" => return .fs (.write (← getNat j "h") (← hexData (← getStr j "d")))
+  | "flush" => return .fs (.flush (← getNat j "h"))
+  | "sync" => return .fs (.syncAll (← getNat j "h"))
+  | "set_len" => return .fs (.setLen (← getNat j "h") (← getNat j "n"))
+  | "seek" => return .fs (.seek (← getNat j "h") (← getNat j "n"))
+  | "drop" => return .fs (.drop (← getNat j "h"))
+  | "remove" => return .fs (.remove (← getNat j "p"))
+  | "flush_storage" => return .q .flushTake
+  | "run" => return .q (.run (← getNat j "t"))
+  | "succ" => return .q (.succ (← getNat j "tx"))
+  | "complete" => return .q (.complete (← getNat j "tx"))
+  | "skip" => return .skip
+  | _ => throw s!"C27: unknown item {op}"
+
+def obsJson (s : Sys) : Json :=
+  let store := Json.mkObj (s.q.store.map (fun (pv : Path × Ver) => (toString pv.1, Json.str (dataHex pv.2.data))))
+  let txs := Json.arr (s.q.txs.map (fun x =>
+    match x.op with
+    | .put p v => Json.arr #[(x.id : Json), "put", (p : Json), Json.str (dataHex v.data), x.succeeded]
+    | .del p => Json.arr #[(x.id : Json), "del", (p : Json), Json.null, x.succeeded])).toArray
+  let fl := Json.arr ((List.range s.q.flushes.length).map (fun f =>
+    Json.arr #[Json.bool (flushDone s.q f), Json.bool (flushDone s.q f && flushOk s.q f)])).toArray
+  Json.mkObj [("store", store), ("txs", txs), ("runnable", natsToJson (runnableTasks s.q)), ("flushes", fl)]
+
+def runItems (s : Sys) (items : List Json) (acc : Array Json) (i : Nat) : Except String (Sys × Array Json × Option Nat) :=
+  match items with
+  | [] => .ok (s, acc, none)
+  | j :: rest => do
+    let l ← parseItem j
+    match sysStep s l with
+    | none => .ok (s, acc, some i)
+    | some s' => runItems s' rest (acc.push (obsJson s')) (i + 1)
+
+def parsePD (j : Json) : Except String (Path × Data) := do
+  let a ← j.getArr?
+  match a.toList with
+  | [p, d] => return (← p.getNat?, ← natList d)
+  | _ => throw "expected [path, data]"
+
+def parseCommit (j : Json) : Except String Commit := do
+  let files ← (← getArr j "files").toList.mapM parsePD
+  let m ← natList (← j.getObjVal? "manifest")
+  let pre ← (getArrD j "pre").toList.mapM natList
+  let post ← (getArrD j "post").toList.mapM natList
+  return { pre := pre, files := files, manifest := m, post := post }
+
+def storeOf (pds : List (Path × Data)) : List (Path × Ver) :=
+  pds.foldl (fun s pd => aset pd.1 ⟨pd.2, 0⟩ s) []
+
+def recJson : Rec → Json
+  | .fresh => Json.mkObj [("class", "fresh")]
+  | .commit k => Json.mkObj [("class", "commit"), ("k", (k : Json))]
+  | .broken => Json.mkObj [("class", "broken")]
+
+/-- every prefix of the completion log replays to an image that reopens -/
+def prefixesOk (cs : List Commit) : List (Path × Ver) → List Op → Bool
+  | s, [] => recover cs s != Rec.broken
+  | s, o :: os => recover cs s != Rec.broken && prefixesOk cs (applyOp s o) os
+
+/-- per block: (number of leading log snapshots of `add_documents`, length of the first stage,
+number of stages) -/
+abbrev BlockShape := Nat × Nat × Nat
+
+/-- the program has just executed the last `schedule` call of `add_documents` -/
+def atYield (shapes : List BlockShape) (s : PSt) : Bool :=
+  match shapes[s.started - 1]? with
+  | some (pre, first, total) =>
+    s.started > 0 && pre > 0 && s.inStage && s.waiting.isNone && s.stages.length + 1 == total &&
+      s.cur.length + pre == first
+  | none => false
+
+/-- one poll of the page's main task: the program moves until it blocks, finishes, or yields
+after `add_documents` -/
+def mainPoll (shapes : List BlockShape) (yieldAfterAdd : Bool) (s : PSt) : Nat → PSt
+  | 0 => s
+  | n + 1 =>
+    match progStep s with
+    | none => s
+    | some s' =>
+      if yieldAfterAdd && atYield shapes s' && decide (s'.cur.length < s.cur.length) then s'
+      else mainPoll shapes yieldAfterAdd s' n
+
+/-- the specified browser with the FIFO microtask queue: runnable persistence tasks first
+(lowest id), then the main task, then the next event of the oldest transaction -/
+def fifoRun (shapes : List BlockShape) (y : Bool) (s : PSt) : Nat → PSt
+  | 0 => s
+  | n + 1 =>
+    match runnableTasks s.q with
+    | t :: _ =>
+      match pstep s (.adv (.run t)) with
+      | some s' => fifoRun shapes y s' n
+      | none => s
+    | [] =>
+      match progStep s with
+      | some _ => fifoRun shapes y (mainPoll shapes y s 10000) n
+      | none =>
+        match s.q.txs with
+        | x :: _ =>
+          match pstep s (.adv (if x.succeeded then .complete x.id else .succ x.id)) with
+          | some s' => fifoRun shapes y s' n
+          | none => s
+        | [] => s
+
+def shapeOf (rep : Bool) (c : Commit) : BlockShape :=
+  let b := if rep then blockRepaired c else blockOf c
+  (c.pre.length, (b.headD []).length, b.length)
+
+def handle (req : Json) : Except String Json := do
+  let op ← getStr req "op"
+  match op with
+  | "sys" =>
+    let ac := getBoolD req "await_complete" false
+    let items := (← getArr req "items").toList
+    let s0 : Sys := { q := { awaitComplete := ac } }
+    let (s, obs, stuck) ← runItems s0 items #[] 0
+    let paths ← natList (← req.getObjVal? "paths")
+    let files := Json.mkObj (paths.map (fun p => (toString p, match fsRead s.fs p with
+      | some d => Json.str (dataHex d)
+      | none => Json.null)))
+    return Json.mkObj [("obs", Json.arr obs), ("files", files),
+      ("stuck", match stuck with | some i => (i : Json) | none => Json.null)]
+  | "recover" =>
+    let cs ← (← getArr req "commits").toList.mapM parseCommit
+    let st ← (← getArr req "store").toList.mapM parsePD
+    return recJson (recover cs (storeOf st))
+  | "ordered" =>
+    let cs ← (← getArr req "commits").toList.mapM parseCommit
+    let dn ← (← getArr req "done").toList.mapM parsePD
+    let ops := dn.map (fun pd => Op.put pd.1 ⟨pd.2, 0⟩)
+    return Json.mkObj [("ordered", Json.bool (ordered cs ops)), ("prefixes_ok", Json.bool (prefixesOk cs [] ops))]
+  | "fifo" =>
+    let cs ← (← getArr req "commits").toList.mapM parseCommit
+    let rep := getBoolD req "repaired" false
+    let s := fifoRun (cs.map (shapeOf rep)) (getBoolD req "yield_after_add" true) (initP cs rep) (getNatD req "fuel" 100000)
+    let dn := s.q.done.map (fun o => match o with
+      | .put p v => Json.arr #[(p : Json), natsToJson v.data]
+      | .del p => Json.arr #[(p : Json), Json.null])
+    return Json.mkObj [("done", Json.arr dn.toArray), ("resolved", (s.resolvedBlocks : Json)),
+      ("finished", Json.bool (!s.inStage && s.rest.isEmpty && s.waiting.isNone && s.q.txs.isEmpty))]
+  | _ => throw s!"C27: unknown op {op}"
 
 end SL.Drv.C27
